@@ -63,22 +63,20 @@ Theorem C07_reject_or_agree : forall sc q c,
 Proof. exact not_never_answered. Qed.
 (* (2) an attribute of a variable other than the selected one is rejected (was C07-a: translated as the selected one) *)
 Theorem C07_rejects_othervar : forall sc q op v ch lit,
-  q_setof q = false -> q_cond q = Some (CCmp op (OAttr v ch) (OLit lit)) -> v <> q_sel q -> translate sc q = TReject.
+  q_cond q = Some (CCmp op (OAttr v ch) (OLit lit)) -> v <> q_sel q -> translate sc q = TReject.
 Proof. exact rejects_othervar. Qed.
 Theorem C07_rejects_othervar_attr : forall sc sel root st v ch, v <> sel -> tattr sc sel root st v ch = RReject.
 Proof. exact tattr_othervar. Qed.
 (* (3) a relationship-valued operand against a plain literal / in a literal list is rejected (was C07-c) *)
 Theorem C07_rejects_rel_literal : forall sc q op v ch lit,
-  q_setof q = false -> q_cond q = Some (CCmp op (OAttr v ch) (OLit lit)) -> is_rel sc (q_vars q) (OAttr v ch) = true ->
-  translate sc q = TReject.
+  q_cond q = Some (CCmp op (OAttr v ch) (OLit lit)) -> is_rel sc (q_vars q) (OAttr v ch) = true -> translate sc q = TReject.
 Proof. exact rejects_rel_literal. Qed.
 Theorem C07_rejects_rel_in_list : forall sc q v ch cs,
-  q_setof q = false -> q_cond q = Some (CContains (OList cs) (OAttr v ch)) -> is_rel sc (q_vars q) (OAttr v ch) = true ->
-  translate sc q = TReject.
+  q_cond q = Some (CContains (OList cs) (OAttr v ch)) -> is_rel sc (q_vars q) (OAttr v ch) = true -> translate sc q = TReject.
 Proof. exact rejects_rel_in_list. Qed.
 (* (4) an attribute-equality join of two variables of the selected type is rejected (was C07-g) *)
 Theorem C07_rejects_selfjoin : forall sc q v1 ch1 v2 ch2 root a1 a2 t1 t2,
-  q_setof q = false -> q_cond q = Some (CCmp OEq (OAttr v1 ch1) (OAttr v2 ch2)) -> v1 <> v2 ->
+  q_cond q = Some (CCmp OEq (OAttr v1 ch1) (OAttr v2 ch2)) -> v1 <> v2 ->
   assoc (q_sel q) (q_vars q) = Some root -> assoc v1 (q_vars q) = Some root -> assoc v2 (q_vars q) = Some root ->
   last_of ch1 = Some a1 -> last_of ch2 = Some a2 ->
   field_kind sc root a1 = Some (FRel t1) -> field_kind sc root a2 = Some (FRel t2) ->
@@ -104,9 +102,18 @@ Theorem C07_refuted_noneref :      (* a None reference on a chain: dropped by th
   (model_res Wit.sc WitJ.q_noneref WitJ.wn = Some (Ok [6]) /\ answers Wit.sc WitJ.q_noneref WitJ.wn = Err AttrErr) /\
   f07 Wit.sc WitJ.q_noneref_or WitJ.wn = false.
 Proof. exact refuted_noneref. Qed.
-Theorem C07_refuted_setof :        (* set_of([p], ...): AttributeError escapes eql_to_sql instead of an EQLTranslationError *)
-  translate Wit.sc WitJ.q_setof = TCrash /\ answers Wit.sc WitJ.q_setof Wit.w = Ok [1].
-Proof. exact refuted_setof. Qed.
+Theorem C07_refuted_setlit :       (* in_(p.x, {1, 2}): a set / frozenset container is bound as ONE parameter: the statement fails to execute *)
+  model_res Wit.sc WitJ.q_inset Wit.w = Some (Err TypeErr) /\ answers Wit.sc WitJ.q_inset Wit.w = Ok [1].
+Proof. exact refuted_setlit. Qed.
+Theorem C07_refuted_namedvar :     (* entity(f, b == f.parent), b a variable of a class with a name: DAO instance == column is False: no rows *)
+  model_res Wit.sc WitJ.q_namedvar Wit.w = Some (Ok []) /\ answers Wit.sc WitJ.q_namedvar Wit.w = Ok [10; 10; 11; 11] /\
+  translate Wit.sc WitJ.q_namedvar_right = TReject.
+Proof. exact refuted_namedvar. Qed.
+(* (6) a set_of query is rejected (was C07-k: AttributeError) *)
+Theorem C07_rejects_setof : forall sc q, q_setof q = true -> translate sc q = TReject.
+Proof. exact rejects_setof. Qed.
+Example C07_fixed_setof : translate Wit.sc WitJ.q_setof = TReject.
+Proof. exact fixed_setof. Qed.
 
 (* regression: the witnesses of the repaired classes: C07-a, -c, -e, -f, -g are rejected; C07-d (substring), C07-b (!= with None),
    C07-h (str column as condition), C07-i (two equality joins onto one table) agree *)
@@ -172,4 +179,6 @@ Print Assumptions C07_rejects_none_order.
 Print Assumptions C07_refuted_null.
 Print Assumptions C07_refuted_valueeq.
 Print Assumptions C07_refuted_noneref.
-Print Assumptions C07_refuted_setof.
+Print Assumptions C07_refuted_setlit.
+Print Assumptions C07_refuted_namedvar.
+Print Assumptions C07_rejects_setof.
